@@ -79,6 +79,10 @@ def gen_cases(rng, ctx):
                 continue      # only the unwrapping of datagrams relayed by the proxy is untrusted input
             if eng in OPAQUE:
                 per_engine.setdefault(eng, []).append((toks, c.model is not None and c.model == c.impl))
+    # the unmutated boundary families of the packet parsers (every header length x every cut just behind a header) run here too
+    for c in importlib.import_module("props.c11").packet_cases(rng, False):
+        if "boundary" in c.kind:
+            cases.append(Case(c.impl, c.model, kind="boundary:c11_parse_message", nontrivial=True, meta={"engine": "c11_parse_message"}))
     budget = 260 if thorough else 60
     for eng, pool in sorted(per_engine.items()):
         for k in range(budget):
